@@ -357,6 +357,17 @@ fn run<A: Alphabet, C: PositiveLength, S: Striper<A, C>>(case: &Case) -> Verdict
             return Verdict::Fail(f);
         }
     }
+    // the by-value ways out (`into_matrix`, `DenseMatrix::from`) hand over the very matrix `matrix()` shows
+    {
+        let rows_now = cur.matrix().rows();
+        let a = cur.clone().into_matrix();
+        let b: lightmotif::dense::DenseMatrix<A::Symbol, C> = cur.clone().into();
+        for (name, mx) in [("into_matrix", &a), ("DenseMatrix::from", &b)] {
+            if mx.rows() != rows_now || (0..rows_now).any(|i| mx[i].iter().zip(cur.matrix()[i].iter()).any(|(x, y)| x.as_index() != y.as_index())) {
+                return Verdict::Fail(Failure::new("stripe:by-value", format!("{}: {} rows against {} of matrix(), or a cell differs", name, mx.rows(), rows_now)));
+            }
+        }
+    }
     let l = model.len();
     let r = (l + c - 1) / c;
     info.nontrivial = r >= 2 && wrap_ops_after_stripe >= 1;
